@@ -86,8 +86,10 @@ def QueueOk (x y : Queue) : Prop :=
 
 def ChanOk (x y : Chan) : Prop := y.notif = x.notif ∧ (x.closed = true → y.closed = true)
 
-/-- an event stays the same event; a value, once there, is the value for ever -/
-def EventOk (x y : PyEvent) : Prop := y.flag = x.flag ∧ y.kind = x.kind ∧ (x.value.isSome = true → y.value = x.value)
+/-- an event stays the same event; a value, once there, is the value for ever; once its callbacks have been processed
+(`callbacks = None`) none is ever armed again -/
+def EventOk (x y : PyEvent) : Prop :=
+  y.flag = x.flag ∧ y.kind = x.kind ∧ (x.value.isSome = true → y.value = x.value) ∧ (x.callbacks = none → y.callbacks = none)
 
 theorem ScopeOk.refl (x : Scope) : ScopeOk x x :=
   ⟨rfl, rfl, rfl, rfl, List.prefix_refl _, fun h => ⟨h, List.Sublist.refl _, List.Sublist.refl _⟩⟩
@@ -109,11 +111,11 @@ theorem QueueOk.trans (x y z : Queue) (h1 : QueueOk x y) (h2 : QueueOk y z) : Qu
 theorem ChanOk.refl (x : Chan) : ChanOk x x := ⟨rfl, fun h => h⟩
 theorem ChanOk.trans (x y z : Chan) (h1 : ChanOk x y) (h2 : ChanOk y z) : ChanOk x z :=
   ⟨h2.1.trans h1.1, fun h => h2.2 (h1.2 h)⟩
-theorem EventOk.refl (x : PyEvent) : EventOk x x := ⟨rfl, rfl, fun _ => rfl⟩
+theorem EventOk.refl (x : PyEvent) : EventOk x x := ⟨rfl, rfl, fun _ => rfl, fun h => h⟩
 theorem EventOk.trans (x y z : PyEvent) (h1 : EventOk x y) (h2 : EventOk y z) : EventOk x z := by
-  obtain ⟨a1, a2, a3⟩ := h1
-  obtain ⟨b1, b2, b3⟩ := h2
-  refine ⟨b1.trans a1, b2.trans a2, fun h => ?_⟩
+  obtain ⟨a1, a2, a3, a4⟩ := h1
+  obtain ⟨b1, b2, b3, b4⟩ := h2
+  refine ⟨b1.trans a1, b2.trans a2, fun h => ?_, fun h => b4 (a4 h)⟩
   have c := a3 h
   have d := b3 (by rw [c]; exact h)
   exact d.trans c
@@ -382,10 +384,12 @@ macro_rules
       | exact ⟨rfl, fun h => h⟩
       | exact ⟨rfl, fun _ => rfl⟩
       | exact EventOk.refl _
-      | exact ⟨rfl, rfl, fun _ => rfl⟩
+      | exact ⟨rfl, rfl, fun _ => rfl, fun h => h⟩
+      | exact ⟨rfl, rfl, fun _ => rfl, fun _ => rfl⟩
       | (refine ⟨rfl, rfl, rfl, rfl, List.prefix_refl _, fun h => ?_⟩; exfalso; (try simp only [ovsimp] at h);
          simp_all [World.scope]; done)
-      | (refine ⟨rfl, rfl, fun h => ?_⟩; exfalso; (try simp only [ovsimp] at h); simp_all [World.pyEv]; done)
+      | (refine ⟨rfl, rfl, fun h => ?_, fun h => h⟩; exfalso; (try simp only [ovsimp] at h); simp_all [World.pyEv]; done)
+      | (refine ⟨rfl, rfl, fun _ => rfl, fun h => ?_⟩; exfalso; (try simp only [ovsimp] at h); simp_all [World.pyEv]; done)
       | (refine ⟨rfl, rfl, fun h => ⟨h, ?_⟩⟩; (try simp only [ovsimp]); simp_all; done)))
 
 /-- backward chaining for goals `OX(o0, (f w ..))` from a hypothesis `h : OX(o0, w)` -/
